@@ -177,6 +177,8 @@ def run():
             edge_bad += 1
             ast = r["ast"] if r["ast_ok"] else None
             roles = {"empty-remainder-edge"}
+            if R.root_in_nested_branch(ast):
+                roles.add("root-in-nested-branch")
             if R.separator_class(ast):
                 roles.add("separator-class")
             elif not left and right and post is None and r["row"]["part"]["prefix"].endswith("/") and pn != "/":
